@@ -20,11 +20,25 @@ import (
 	"verif/internal/instr"
 )
 
-const (
-	repo  = "/repo"
-	verif = "/verif"
-	goBin = "go1.26.8"
-)
+const goBin = "go1.26.8"
+
+// repo is the tree under test: /repo, or a scratch worktree of it for
+// sensitivity experiments (VERIF_REPO). Registered checks never set VERIF_REPO.
+var repo = func() string {
+	if d := os.Getenv("VERIF_REPO"); d != "" {
+		return d
+	}
+	return "/repo"
+}()
+
+// verif is the root of the verification tree this driver belongs to
+// (bin/check exports VERIF_DIR; default /verif).
+var verif = func() string {
+	if d := os.Getenv("VERIF_DIR"); d != "" {
+		return d
+	}
+	return "/verif"
+}()
 
 func goEnv() []string {
 	env := os.Environ()
@@ -271,6 +285,7 @@ type workerOut struct {
 	Harness     string            `json:"harness"`
 	Property    string            `json:"property"`
 	Runs        int               `json:"runs"`
+	Cases       int               `json:"cases"`
 	NonTrivial  int               `json:"nontrivial"`
 	Hashes      []string          `json:"hashes"`
 	States      []string          `json:"states"`
@@ -545,6 +560,7 @@ func sum(m map[string]int) int {
 
 type aggT struct {
 	runs, nontrivial int
+	cases            int
 	hashes           map[string]bool
 	states           map[string]bool
 	steps            int64
@@ -588,6 +604,7 @@ func aggregate(results []workerRun) *aggT {
 			continue
 		}
 		a.runs += o.Runs
+		a.cases += o.Cases
 		a.nontrivial += o.NonTrivial
 		for _, h := range o.Hashes {
 			a.hashes[h] = true
@@ -667,6 +684,7 @@ func writeEvidence(prop, tier string, seed uint64, spec propSpec, h *harnessSpec
 	sort.Strings(knownSeen)
 	cov := map[string]any{
 		"evaluations":                        a.runs,
+		"cases_generated":                    a.cases,
 		"distinct_nontrivial":                len(a.hashes),
 		"nontrivial_runs":                    a.nontrivial,
 		"rule":                               a.rule,
